@@ -9,8 +9,8 @@ import json, os
 import vf
 
 PROP = 'C03'
-CFG = {'quick': ['gen/MC_C03char_q.cfg', 'gen/MC_C03tok_q.cfg'],
-       'thorough': ['gen/MC_C03char_t.cfg', 'gen/MC_C03tok_t.cfg']}
+CFG = {'quick': ['gen/MC_C03char_q.cfg', 'gen/MC_C03tok_q.cfg', 'gen/MC_C03atoms_q.cfg'],
+       'thorough': ['gen/MC_C03char_t.cfg', 'gen/MC_C03tok_t.cfg', 'gen/MC_C03atoms_t.cfg']}
 
 
 def text_of(case):
